@@ -162,7 +162,8 @@ def getattr_(ev: Ev, base, attr, node):
         return VStr(base.name)
     if isinstance(base, VNone):
         ev.require(False, "AttributeError", node)
-        raise Unsupported("unconditional failure in a pure context: attr of None")
+        raise Unsupported("unconditional failure in a pure context: attribute %s of None (%s line %s)" % (
+            attr, ev.frame.relpath, getattr(node, "lineno", "?")))
     ev.unsupported(node, "attribute %s of %r" % (attr, base))
 
 
